@@ -20,6 +20,14 @@ def _deps(vals):
 
 
 class CallModelsMixin:
+    def _conv_raises(self, pos, node):
+        """float(x) / int(x): TypeError for non-numbers, ValueError for strings"""
+        for p in pos:
+            if (not p.ty) or (p.ty - {"int", "float", "number", "bool"}):
+                self.may_raise("TypeError", node=node)
+            if "str" in p.ty or "?" in p.ty or not p.ty:
+                self.may_raise("ValueError", node=node)
+
     def unknown_result(self, node, vals, tag="ucall") -> Val:
         d, m = _deps(vals)
         return Val(ty={"?"}, pts={("N", self.site(node, tag))}, dep=d, mdep=m)
@@ -50,10 +58,16 @@ class CallModelsMixin:
     def builtin_construct(self, cname: str, pos, kw, st, node) -> Val:
         d, m = _deps(pos + list(kw.values()))
         if cname in ("int", "np.int64", "np.integer"):
+            self._conv_raises(pos, node)
             return Val(ty={"int"}, kind={"I"}, dep=d, mdep=m)
         if cname in ("float", "np.float64", "np.floating"):
+            self._conv_raises(pos, node)
             return Val(ty={"float"}, kind={"F"}, fsrc=self.new_float(node, f"{cname}(...) used as a value"), dep=d, mdep=m)
         if cname == "Fraction":
+            if any((not p.ty) or (p.ty - {"int", "number", "bool"}) for p in pos):
+                self.may_raise("TypeError", "ValueError", node=node)
+            if len(pos) > 1:
+                self.may_raise("ZeroDivisionError", node=node)
             return Val(ty={"number"}, kind={"Q"}, dep=d, mdep=m)
         if cname == "str":
             return mk_str().with_(dep=d)
@@ -125,19 +139,26 @@ class CallModelsMixin:
                 tys.add("cls:?")
             return Val(ty=tys, dep=d, mdep=m, kind={"N"})
         if name == "float":
+            self._conv_raises(pos, node)
             return Val(ty={"float"}, kind={"F"}, fsrc=self.new_float(node, "float(...) used as a value"), dep=d, mdep=m)
         if name == "int":
+            self._conv_raises(pos, node)
             return Val(ty={"int"}, kind={"I"}, dep=d, mdep=m)
         if name in ("str", "repr", "format", "chr"):
             return mk_str().with_(dep=d)
         if name in ("abs", "round"):
             if a0 is None:
                 return UNKNOWN
+            if (not a0.ty) or (a0.ty - {"int", "float", "number", "bool", "ndarray"}):
+                self.may_raise("TypeError", node=node)
             if "ndarray" in a0.ty or a0.is_unknown():
                 r = self.arith_result([a0], node)
                 return r
             return a0.with_(pts=EMPTY, const=None, dep=d, mdep=m)
         if name in ("max", "min", "sum"):
+            self.may_raise("TypeError", node=node)
+            if name != "sum":
+                self.may_raise("ValueError", node=node)
             ops = []
             for p in pos:
                 e = p.iter_join()
@@ -174,6 +195,7 @@ class CallModelsMixin:
         if name in ("id", "hash", "ord"):
             return mk_int().with_(dep=d)
         if name in ("getattr",):
+            self.may_raise("AttributeError", node=node)
             return self.unknown_result(node, pos)
         if name.startswith("super.") or name.startswith("object."):
             attr = name.split(".", 1)[1]
@@ -264,6 +286,7 @@ class CallModelsMixin:
         parts = dotted.split(".")
         head, name = parts[0], parts[-1]
         a0 = pos[0] if pos else None
+        self.may_raise("ValueError", "TypeError", node=node)
         if head == "math":
             if name in ("comb", "factorial", "gcd", "lcm", "isqrt", "floor", "ceil", "trunc"):
                 return mk_int().with_(dep=d, mdep=m)
@@ -275,6 +298,8 @@ class CallModelsMixin:
         if head != "np":
             return self.unknown_result(node, pos)
         sub = parts[1:-1]
+        if sub and sub[0] == "linalg":
+            self.may_raise("LinAlgError", node=node)
         if sub and sub[0] in ("linalg", "polynomial", "fft"):
             fs = self.new_float(node, f"np.{'.'.join(parts[1:])}(...)")
             if name == "leggauss":
@@ -380,6 +405,12 @@ class CallModelsMixin:
         ty = recv.ty
         a0 = pos[0] if pos else None
         unknown = "?" in ty or not ty
+        if name in ("remove", "index"):
+            self.may_raise("ValueError", node=node)
+        if name in ("pop", "popitem"):
+            self.may_raise("IndexError", "KeyError", node=node)
+        if unknown:
+            self.may_raise("*", node=node)
         if name in MUT_NAMES and (ty & {"list", "set", "dict", "ndarray"} or unknown):
             self.mutate(recv.pts, node, f".{name}()")
             pd, _pm = st.pc_dep()
